@@ -333,14 +333,26 @@ _mtbl_compress_zlib(
 	assert(zret == Z_OK);
 	*output_size = deflateBound(&zs, input_size);
 	*output = my_malloc(*output_size);
-	zs.avail_in = input_size;
 	zs.next_in = (uint8_t *) input;
-	zs.avail_out = *output_size;
 	zs.next_out = *output;
-	zret = deflate(&zs, Z_FINISH);
-	assert(zret == Z_STREAM_END);
-	assert(zs.avail_in == 0);
-	*output_size = zs.total_out;
+
+	/* zlib counts in 32 bits: hand it both buffers in pieces of at most UINT_MAX bytes */
+	size_t in_left = input_size;
+	size_t out_left = *output_size;
+	do {
+		if (zs.avail_in == 0 && in_left > 0) {
+			zs.avail_in = (in_left > UINT_MAX) ? UINT_MAX : (uInt) in_left;
+			in_left -= zs.avail_in;
+		}
+		if (zs.avail_out == 0 && out_left > 0) {
+			zs.avail_out = (out_left > UINT_MAX) ? UINT_MAX : (uInt) out_left;
+			out_left -= zs.avail_out;
+		}
+		zret = deflate(&zs, (in_left > 0) ? Z_NO_FLUSH : Z_FINISH);
+		assert(zret == Z_OK || zret == Z_STREAM_END);
+	} while (zret != Z_STREAM_END);
+	assert(zs.avail_in == 0 && in_left == 0);
+	*output_size = (size_t) (zs.next_out - *output);
 	zret = deflateEnd(&zs);
 	if (zret != Z_OK) {
 		free(*output);
@@ -474,23 +486,33 @@ _mtbl_decompress_zlib(
 	zret = inflateInit(&zs);
 	assert(zret == Z_OK);
 
-	zs.avail_in = input_size;
 	zs.next_in = (uint8_t *) input;
-	zs.avail_out = *output_size;
 	zs.next_out = *output;
 
+	/* zlib counts in 32 bits: hand it both buffers in pieces of at most UINT_MAX bytes */
+	size_t in_left = input_size;
+	size_t out_used = 0;
 	do {
-		zret = inflate(&zs, Z_FINISH);
-		assert(zret == Z_STREAM_END || zret == Z_BUF_ERROR);
-		if (zret != Z_STREAM_END) {
-			*output = my_realloc(*output, *output_size * 2);
-			zs.next_out = *output + *output_size;
-			zs.avail_out = *output_size;
-			*output_size *= 2;
+		if (zs.avail_in == 0 && in_left > 0) {
+			zs.avail_in = (in_left > UINT_MAX) ? UINT_MAX : (uInt) in_left;
+			in_left -= zs.avail_in;
 		}
+		if (zs.avail_out == 0) {
+			if (out_used == *output_size) {
+				*output = my_realloc(*output, *output_size * 2);
+				*output_size *= 2;
+			}
+			size_t room = *output_size - out_used;
+			zs.next_out = *output + out_used;
+			zs.avail_out = (room > UINT_MAX) ? UINT_MAX : (uInt) room;
+			out_used += zs.avail_out;
+		}
+		zret = inflate(&zs, Z_NO_FLUSH);
+		assert(zret == Z_OK || zret == Z_STREAM_END ||
+		       (zret == Z_BUF_ERROR && zs.avail_out == 0));
 	} while (zret != Z_STREAM_END);
 
-	*output_size = zs.total_out;
+	*output_size = out_used - zs.avail_out;
 	inflateEnd(&zs);
 
 	return (mtbl_res_success);
